@@ -10,6 +10,7 @@ import (
 	"encoding/json"
 	"flag"
 	"fmt"
+	"go/ast"
 	"go/parser"
 	"go/token"
 	"os"
@@ -110,6 +111,8 @@ type overlaySet struct {
 	genDir  string
 }
 
+var harnessName = regexp.MustCompile(`^VerifC[0-9]+_`)
+
 var pkgClause = regexp.MustCompile(`(?m)^package\s+(\w+)`)
 
 // buildOverlay maps /verif/harness/<pkgdir>/zz_verif_*.go into /repo/<pkgdir>/ and generates the vp support file.
@@ -159,9 +162,13 @@ func buildOverlay(withTests bool) *overlaySet {
 			// collect harness function names
 			fset := token.NewFileSet()
 			if f, err := parser.ParseFile(fset, p, b, 0); err == nil {
-				for name := range f.Scope.Objects {
-					if strings.HasPrefix(name, "Verif") {
-						harnessFuncs[rel] = append(harnessFuncs[rel], name)
+				for _, d := range f.Decls {
+					fd, ok := d.(*ast.FuncDecl)
+					if !ok || fd.Recv != nil || fd.Type.Params.NumFields() != 0 || fd.Type.Results.NumFields() != 0 {
+						continue
+					}
+					if harnessName.MatchString(fd.Name.Name) {
+						harnessFuncs[rel] = append(harnessFuncs[rel], fd.Name.Name)
 					}
 				}
 			}
@@ -881,6 +888,7 @@ func runNative(ov *overlaySet, pkgDir, cexPath string, timeout time.Duration) (s
 		out, err := cmd.CombinedOutput()
 		if err != nil {
 			nativeBuilt[pkgDir] = ""
+			fmt.Fprintf(os.Stderr, "native build of %s failed: %v\n%s\n", pkgDir, err, lastLines(string(out), 30))
 			return "native build failed: " + err.Error() + "\n" + string(out), false
 		}
 		nativeBuilt[pkgDir] = bin
